@@ -230,7 +230,7 @@ INT_NAMES = {
     "coordinate_size": ["coord_size_div"],
     "signature_size": ["sig_size_mul"],
     "ecc_sign": [],
-    "ecc_verify": ["ecc_verify_div"],
+    "ecc_verify": ["ecc_verify_div", "ecc_verify_first"],
     "ecc_export": [],
     "ecc_recreate_from_data": ["ecc_raw_div", "ecc_raw_mul", "ecc_raw_der_lo", "ecc_raw_der_span", "ecc_raw_half"],
     "ecc_pub_parse": [],
@@ -243,8 +243,8 @@ INT_NAMES = {
     "prv_parse": [],
     "get_file_encodings": ["pem_find_fail"],
     "get_signature": [],
-    "cli_convert": ["cli_raw_div"],
-    "cli_reconstruct_key": ["cli_prv_max", "cli_pub_a", "cli_pub_b", "cli_pub_half"],
+    "cli_convert": [],
+    "cli_reconstruct_key": ["cli_prv_max", "cli_prv_extra", "cli_pub_a", "cli_pub_b", "cli_pub_half"],
     "key_len_curve": ["klc_256_max", "klc_256_pub", "klc_384_max", "klc_384_pub", "klc_521_max"],
 }
 
